@@ -101,6 +101,91 @@ type Config struct {
 	Users       []User   `yaml:"users,omitempty" json:"users,omitempty"`
 	PrefixDeny  []string `yaml:"prefix_deny,omitempty" json:"prefix_deny,omitempty"`
 	PrefixAllow []string `yaml:"prefix_allow,omitempty" json:"prefix_allow,omitempty"`
+	// Extra: keys the harness' model does not know but the tree under test does (see ExtraKey); always
+	// empty on the unchanged tree
+	Extra []ExtraKey `yaml:"-" json:"extra_keys,omitempty"`
+}
+
+// ExtraKey is a key of the configuration schema that this model does not have: the tree under test has
+// grown a field (Kind names the library's struct: User, Group, Command, Service, Value, Authenticator,
+// Accounter, SecretConfig, Handler, Keychain, ServerConfig) or reads an option the unchanged tree does not
+// (Kind "Authenticator.options", "Accounter.options", "SecretConfig.options").  The renderers write it into
+// every object of that kind.
+type ExtraKey struct {
+	Kind  string      `json:"kind"`
+	Key   string      `json:"key"`
+	Value interface{} `json:"value"`
+}
+
+// generic returns the document as nested maps with the extra keys written in.
+func (c Config) generic() map[string]interface{} {
+	b, err := json.Marshal(c)
+	if err != nil {
+		panic(err)
+	}
+	var doc map[string]interface{}
+	if err := json.Unmarshal(b, &doc); err != nil {
+		panic(err)
+	}
+	delete(doc, "extra_keys")
+	apply := func(kind string, v interface{}) {
+		obj, ok := v.(map[string]interface{})
+		if !ok {
+			return
+		}
+		for _, e := range c.Extra {
+			switch e.Kind {
+			case kind:
+				obj[e.Key] = e.Value
+			case kind + ".options":
+				opts, _ := obj["options"].(map[string]interface{})
+				if opts == nil {
+					opts = map[string]interface{}{}
+					obj["options"] = opts
+				}
+				opts[e.Key] = e.Value
+			}
+		}
+	}
+	each := func(v interface{}, f func(interface{})) {
+		if l, ok := v.([]interface{}); ok {
+			for _, x := range l {
+				f(x)
+			}
+		}
+	}
+	aaa := func(v interface{}) {
+		o, ok := v.(map[string]interface{})
+		if !ok {
+			return
+		}
+		each(o["commands"], func(x interface{}) { apply("Command", x) })
+		each(o["services"], func(x interface{}) {
+			apply("Service", x)
+			if sv, ok := x.(map[string]interface{}); ok {
+				each(sv["match"], func(y interface{}) { apply("Value", y) })
+				each(sv["set_values"], func(y interface{}) { apply("Value", y) })
+			}
+		})
+		apply("Authenticator", o["authenticator"])
+		apply("Accounter", o["accounter"])
+	}
+	apply("ServerConfig", doc)
+	each(doc["secrets"], func(x interface{}) {
+		apply("SecretConfig", x)
+		if sc, ok := x.(map[string]interface{}); ok {
+			apply("Keychain", sc["secret"])
+			apply("Handler", sc["handler"])
+		}
+	})
+	each(doc["users"], func(x interface{}) {
+		apply("User", x)
+		aaa(x)
+		if u, ok := x.(map[string]interface{}); ok {
+			each(u["groups"], func(g interface{}) { apply("Group", g); aaa(g) })
+		}
+	})
+	return doc
 }
 
 // NewSecret builds a prefix-type scope served by the START handler.
@@ -133,6 +218,13 @@ func (c *Config) Restore() {
 
 // YAML renders the configuration as a YAML document.
 func (c Config) YAML() []byte {
+	if len(c.Extra) > 0 {
+		b, err := yaml.Marshal(c.generic())
+		if err != nil {
+			panic(err)
+		}
+		return b
+	}
 	b, err := yaml.Marshal(c)
 	if err != nil {
 		panic(err)
@@ -142,6 +234,13 @@ func (c Config) YAML() []byte {
 
 // JSON renders the configuration as a JSON document.
 func (c Config) JSON() []byte {
+	if len(c.Extra) > 0 {
+		b, err := json.Marshal(c.generic())
+		if err != nil {
+			panic(err)
+		}
+		return b
+	}
 	b, err := json.Marshal(c)
 	if err != nil {
 		panic(err)
